@@ -37,7 +37,12 @@ def inlinable(facts, k, opaque, caller=None):
         if not (cf and f.get("impl_self") and f.get("impl_self") == cf.get("impl_self") and "impl_trait" not in f and "impl_trait" not in cf and len(b["blocks"]) <= 12 and not _has_loop(b) and _pure_delegate(facts, caller, k)):
             return False
     if "impl_trait" in f or f.get("impl_trait_def"):
-        return False
+        # a trait method of a *private* type of the crate (`impl TryFrom<&str> for HashEntry`, a helper in trait clothing):
+        # nobody outside can name the type, the call is resolved statically -- it is a private helper
+        st = (f.get("impl_self") or "").split("<")[0]
+        adt = facts.adts.get(st)
+        if not (adt and adt.get("vis") != "pub" and not adt.get("reachable")):
+            return False
     return True
 
 
@@ -832,6 +837,13 @@ def inlined_facts(facts, opaque):
             continue
         newb[k] = dict(j, blocks=blocks, locals=locals_)
         report[k] = done
+    # a helper specialised by a constant enum / bool argument: the matches on that argument are decided (thread.fold_constant_switches)
+    from . import thread as _thread
+    for k in list(newb):
+        view = Body(facts, k, newb[k], ssa=False)
+        nfold = _thread.fold_constant_switches(view)
+        if nfold:
+            report[k].append("folded %d constant switch(es)" % nfold)
     # state-passing folds -> in-place mutation (purlsa.coalesce)
     from . import coalesce
     for k in list(newb):
@@ -860,6 +872,24 @@ def inlined_facts(facts, opaque):
             cand["blocks"], cand["locals"] = view.blocks, view.locals
             newb[k] = cand
             report.setdefault(k, []).append("rolled-map-loop")
+            for ck, cj in made:
+                synth[ck] = cj
+    # flag loops -> Iterator::any with a synthetic closure (purlsa.roll.roll_flag_loops)
+    for k, j in facts.j["bodies"].items():
+        if j["kind"] not in ("fn", "closure"):
+            continue
+        cur = newb.get(k, j)
+        if not any(bl["term"]["t"] == "switch" and bl["term"].get("discr_ty") == "bool" for bl in cur["blocks"]):
+            continue
+        cand = dict(cur, blocks=copy.deepcopy(cur["blocks"]), locals=copy.deepcopy(cur["locals"]))
+        view = Body(facts, k, cand, ssa=False)
+        if not view.loops():
+            continue
+        made = roll.roll_flag_loops(view, k, j.get("root", k))
+        if made:
+            cand["blocks"], cand["locals"] = view.blocks, view.locals
+            newb[k] = cand
+            report.setdefault(k, []).append("rolled-flag-loop")
             for ck, cj in made:
                 synth[ck] = cj
     if not newb:
